@@ -45,12 +45,99 @@ func main() {
 			return fmt.Errorf("ShadowPacketClientUnpacker.UnpackInPlace: no `time.Since(p.oldServerSessionLastSeenTime) < <const>` case found")
 		}
 		l.NatDef("clientSessionChangeMinInterval", minute, "ss2022/packet.go: time.Since(p.oldServerSessionLastSeenTime) < time.Minute (nanoseconds)")
+		// the timestamp validation shared by both UDP header parsers: body fingerprint + call sites + check order
+		vt, err := p.Func("", "ValidateUnixEpochTimestamp")
+		if err != nil {
+			return err
+		}
+		l.StrDef("srcValidateTimestamp", p.Src(vt.Body), "body of ss2022.ValidateUnixEpochTimestamp")
+		for _, it := range [][2]string{{"udpClientHeaderChecks", "ParseUDPClientMessageHeader"}, {"udpServerHeaderChecks", "ParseUDPServerMessageHeader"}} {
+			fd, err := p.Func("", it[1])
+			if err != nil {
+				return err
+			}
+			ch, err := headerChecks(p, fd)
+			if err != nil {
+				return fmt.Errorf("%s: %w", it[1], err)
+			}
+			l.Raw("/-- the error-producing statements of ss2022." + it[1] + ", in order -/\n")
+			l.Raw("def " + it[0] + " : List String := " + gen.LeanStrList(ch) + "\n")
+		}
+		// the arithmetic on peer-controlled packet ids: body fingerprints of the filter functions the model mirrors
+		for _, it := range [][3]string{{"srcSwfNew", "", "NewSlidingWindowFilter"}, {"srcSwfIsOk", "*SlidingWindowFilter", "IsOk"},
+			{"srcSwfMustAdd", "*SlidingWindowFilter", "MustAdd"}, {"srcSwfAdd", "*SlidingWindowFilter", "Add"}, {"srcSwfReset", "*SlidingWindowFilter", "Reset"},
+			{"srcSwfBlockIndex", "*SlidingWindowFilter", "blockIndex"}, {"srcSwfUnmaskedBlockIndex", "*SlidingWindowFilter", "unmaskedBlockIndex"},
+			{"srcSwfBitIndex", "*SlidingWindowFilter", "bitIndex"}} {
+			fd, err := p.Func(it[1], it[2])
+			if err != nil {
+				return err
+			}
+			l.StrDef(it[0], p.Src(fd.Body), "body of ss2022 "+it[1]+" "+it[2])
+		}
 		l.Raw("/-- order of the property-relevant statements of ShadowPacketServerUnpacker.UnpackInPlace -/\n")
 		l.Raw("def serverUnpackOrder : List String := " + gen.LeanStrList(so) + "\n")
 		l.Raw("/-- order of the property-relevant statements of ShadowPacketClientUnpacker.UnpackInPlace -/\n")
 		l.Raw("def clientUnpackOrder : List String := " + gen.LeanStrList(co) + "\n")
 		return nil
 	})
+}
+
+// headerChecks lists, in source order, every top-level statement of a UDP header parser that can end the parse with
+// an error: `if <cond> { ...; return }` guards, the `err = ValidateUnixEpochTimestamp(...)` call (with its argument
+// text) and any other call whose error is returned. Anything else that mentions `err` or returns aborts.
+func headerChecks(p *gen.Pkg, fd *ast.FuncDecl) ([]string, error) {
+	var out []string
+	n := len(fd.Body.List)
+	for i, st := range fd.Body.List {
+		src := p.Src(st)
+		switch s := st.(type) {
+		case *ast.IfStmt:
+			if s.Init != nil || s.Else != nil {
+				return nil, fmt.Errorf("unrecognised statement shape (if with init/else): %s", src)
+			}
+			cond := p.Src(s.Cond)
+			if !hasReturn(s) {
+				if strings.Contains(src, "err") {
+					return nil, fmt.Errorf("unrecognised statement shape (err without return): %s", src)
+				}
+				continue
+			}
+			if !endsWithReturn(s.Body) {
+				return nil, fmt.Errorf("unrecognised statement shape (guard): %s", src)
+			}
+			if cond == "err != nil" {
+				out = append(out, "ret-if-err")
+			} else {
+				out = append(out, "if "+cond)
+			}
+		case *ast.AssignStmt:
+			mentionsErr := false
+			for _, e := range s.Lhs {
+				if p.Src(e) == "err" {
+					mentionsErr = true
+				}
+			}
+			if mentionsErr {
+				if len(s.Rhs) != 1 {
+					return nil, fmt.Errorf("unrecognised statement shape (err assignment): %s", src)
+				}
+				if _, ok := s.Rhs[0].(*ast.CallExpr); !ok {
+					return nil, fmt.Errorf("unrecognised statement shape (err assignment): %s", src)
+				}
+				out = append(out, "err<-"+p.Src(s.Rhs[0]))
+			} else if strings.Contains(src, "ValidateUnixEpochTimestamp") {
+				return nil, fmt.Errorf("unrecognised statement shape (timestamp validation result not in err): %s", src)
+			}
+		case *ast.ReturnStmt:
+			if i != n-1 {
+				return nil, fmt.Errorf("unrecognised statement shape (early return): %s", src)
+			}
+		case *ast.DeclStmt, *ast.IncDecStmt:
+		default:
+			return nil, fmt.Errorf("unrecognised statement shape (statement kind): %s", src)
+		}
+	}
+	return out, nil
 }
 
 var trackedCalls = map[string]bool{"IsOk": true, "MustAdd": true, "Add": true, "Reset": true, "Open": true,
